@@ -1,8 +1,9 @@
 import Goyang.Lemmas.Augment
 import Goyang.Lemmas.Rounds
 /-
-C07 — "…or reported": what happens after the loop in `Modules.Process` (FixChoice, the leftover
-pass with `addErrors`, FixChoice again, the final error sweep).  An augment that is never applied
+C07 — "…or reported": what happens after the loop in `Modules.Process` (FixChoice, the retry rounds
+with FixChoice after every productive one, the reporting sweep with `addErrors`, FixChoice again, the
+final error sweep).  An augment that is never applied
 leaves an `augment-not-found` error, a collision leaves a `duplicate-node` error, and both reach
 the errors `Process` returns.
 -/
@@ -167,7 +168,7 @@ theorem fVisErr_allErrs {f : Forest} {er : Err} (h : FVisErr f er) : er ∈ allE
     simp only at hr ⊢
     rw [hr]
 
-/-! ### the leftover pass -/
+/-! ### the reporting sweep -/
 
 /-- Go: `for _, m := range mods { ToEntry(m).Augment(true) }`, with its trace. -/
 def leftoverR (R : Res) : List Nat → PState → Nat → List Ev → PState × Nat × List Ev
@@ -186,7 +187,7 @@ theorem FoldRel.le {R : Res} {id : Nat} {ae : Bool} {nsOf : String} {f f' : Fore
 /-- The not-found error of an augment statement. -/
 def notFound (a : Entry) : Err := Err.at_ a.d.node "augment-not-found"
 
-/-- After the leftover pass every augment still pending in a visited tree has its
+/-- After the reporting sweep every augment still pending in a visited tree has its
 `augment-not-found` error on a visible node; nothing visible before is lost. -/
 theorem leftoverR_spec (R : Res) : ∀ (l : List Nat) (s : PState) (n : Nat) (tr : List Ev) (D : Nat → Prop),
     NodupPending s → (∀ id, s.pendingOf id ≠ [] → (s.forest.tree? id).isSome = true) →
